@@ -167,8 +167,19 @@ class FilesystemBackend(StorageBackend):
         if self.exists(identifier) and not overwrite:
             raise FileExistsError(identifier)
         path = self._path(identifier)
-        with open(path, 'w') as file:
-            file.write(data)
+        # write to a temporary file first and move it into place afterwards: a failing write must neither leave a
+        # truncated (listed but unloadable) document behind nor destroy the previous content
+        tmp_path = path + '.tmp'
+        try:
+            with open(tmp_path, 'w') as file:
+                file.write(data)
+            os.replace(tmp_path, path)
+        except BaseException:
+            try:
+                os.remove(tmp_path)
+            except OSError:
+                pass
+            raise
 
     def get(self, identifier: str) -> str:
         path = self._path(identifier)
@@ -269,21 +280,26 @@ class ZipFileBackend(StorageBackend):
         os.close(tmpfd)
 
         # create a temp copy of the archive without filename
-        with zipfile.ZipFile(self._root, 'r') as zin:
-            with zipfile.ZipFile(tmpname, 'w') as zout:
-                zout.comment = zin.comment # preserve the comment
-                for item in zin.infolist():
-                    if item.filename != filename:
-                        zout.writestr(item, zin.read(item.filename))
+        try:
+            with zipfile.ZipFile(self._root, 'r') as zin:
+                with zipfile.ZipFile(tmpname, 'w') as zout:
+                    zout.comment = zin.comment # preserve the comment
+                    for item in zin.infolist():
+                        if item.filename != filename:
+                            zout.writestr(item, zin.read(item.filename))
+                    # add filename with its new data before the archive is replaced: a failure at any point leaves
+                    # either the complete old or the complete new archive
+                    if data is not None:
+                        zout.writestr(filename, data, compress_type=self._compression_method)
 
-        # replace with the temp archive
-        os.remove(self._root)
-        os.rename(tmpname, self._root)
-
-        # now add filename with its new data
-        if data is not None:
-            with zipfile.ZipFile(self._root, mode='a', compression=self._compression_method) as zf:
-                zf.writestr(filename, data)
+            # atomically replace the archive with the temp archive
+            os.replace(tmpname, self._root)
+        except BaseException:
+            try:
+                os.remove(tmpname)
+            except OSError:
+                pass
+            raise
 
     def __iter__(self) -> Iterator[str]:
         with zipfile.ZipFile(self._root, 'r') as myzip:
